@@ -361,6 +361,9 @@ func (g *gen) signCmd() M {
 	if r.Intn(8) == 0 {
 		csr["emails"] = 1 + r.Intn(2)
 	}
+	if r.Intn(5) == 0 {
+		csr["ext"] = "ca" // the request asks to be a CA
+	}
 	grants, reads := g.authz(uris)
 	return M{"t": "sign", "csr": csr, "authz": grants, "reads": reads}
 }
